@@ -362,7 +362,8 @@ class ChoiceLog(RecordingSource):
     def choice(self, choices):
         r = RecordingSource.__mro__[1].choice(self, choices)
         if isinstance(r, Individual):
-            self.events.append({"e": "draw", "ind": ind_rec(self.ids, r, self.problem)})
+            self.events.append({"e": "draw", "ind": ind_rec(self.ids, r, self.problem),
+                                "offered": [self.ids.of(x) for x in choices]})
         return r
 
     def shuffle(self, lst):
@@ -411,7 +412,7 @@ def selection_traces(R, tier):
                             except Exception as e:
                                 exc = exc_name(e)
                             events.insert(0, {"e": "selstart", "kind": "tournament", "pop": popr, "mini": [minimise],
-                                              "tsize": tsize, "target": target})
+                                              "tsize": tsize, "target": target, "repl": repl, "ids": [x["id"] for x in popr]})
                             events.append({"e": "selend", "exc": exc})
                             return events
 
